@@ -66,8 +66,14 @@ func runC19(w *World, r *Report, tier string) {
 		nPaths++
 		got := w.nfOn(ret.Results[0], path)
 		forms = append(forms, got)
-		jitOff := pathAsserts(path, func(c ssa.Value, truth bool) bool { f, _ := loadedField(c); return f != nil && f.Name() == "NoJitter" && truth })
-		jitOn := pathAsserts(path, func(c ssa.Value, truth bool) bool { f, _ := loadedField(c); return f != nil && f.Name() == "NoJitter" && !truth })
+		jitOff := pathAsserts(path, func(c ssa.Value, truth bool) bool {
+			f, _ := loadedField(c)
+			return f != nil && f.Name() == "NoJitter" && truth
+		})
+		jitOn := pathAsserts(path, func(c ssa.Value, truth bool) bool {
+			f, _ := loadedField(c)
+			return f != nil && f.Name() == "NoJitter" && !truth
+		})
 		matched := false
 		for _, cand := range []string{att, attField} {
 			want := ""
